@@ -12,6 +12,7 @@ TECH = {'C01': 'runtime contract monitors (icontract / re-entrant wrapper) on ev
 GENERIC = ("; on every library call: plain-argument digests before/after, read-only array arguments in one case out of four, and an offline-checked "
            "call history (sampled cases re-run in reverse order by fresh processes must reproduce every recorded value)")
 
+
 CHECKS = {
     # id: (technique, level text, level note, design ref)
 }
